@@ -303,13 +303,14 @@ func (r *AuthnRequest) Redirect(relayState string, sp *ServiceProvider) (*url.UR
 		return nil, err
 	}
 
-	// We can't depend on Query().set() as order matters for signing
-	query := rv.RawQuery
-	if len(query) > 0 {
-		query += "&SAMLRequest=" + url.QueryEscape(requestStr.String())
-	} else {
-		query += "SAMLRequest=" + url.QueryEscape(requestStr.String())
+	// We can't depend on Query().set() as order matters for signing. The
+	// signature covers only SAMLRequest[&RelayState]&SigAlg, so a query string
+	// that the IdP endpoint already carries is kept apart from the signed part.
+	existingQuery := rv.RawQuery
+	if len(existingQuery) > 0 {
+		existingQuery += "&"
 	}
+	query := "SAMLRequest=" + url.QueryEscape(requestStr.String())
 
 	if relayState != "" {
 		query += "&RelayState=" + url.QueryEscape(relayState)
@@ -329,7 +330,7 @@ func (r *AuthnRequest) Redirect(relayState string, sp *ServiceProvider) (*url.UR
 		query += "&Signature=" + url.QueryEscape(base64.StdEncoding.EncodeToString(sig))
 	}
 
-	rv.RawQuery = query
+	rv.RawQuery = existingQuery + query
 
 	return rv, nil
 }
